@@ -13,6 +13,7 @@ import (
 func init() {
 	vRegister("VerifHarness_WAL_CutAnywhere", VerifHarness_WAL_CutAnywhere)
 	vRegister("VerifHarness_WAL_UnmarshalArbitrary", VerifHarness_WAL_UnmarshalArbitrary)
+	vRegister("VerifHarness_WAL_CorruptPayload", VerifHarness_WAL_CorruptPayload)
 }
 
 type vWALCloser struct{ *bytes.Buffer }
@@ -179,6 +180,43 @@ func VerifHarness_WAL_CutAnywhere() {
 	}
 	vObserve("replayedAllComplete", got == complete)
 	vReach("WAL.cut.end")
+}
+
+// A well-framed entry whose payload is arbitrary bytes: it is either decoded or reported as an
+// error, and Count() never includes an entry that was not decoded (CacheLoader truncates the
+// segment to Count()).
+func VerifHarness_WAL_CorruptPayload() {
+	var buf bytes.Buffer
+	w := NewWALSegmentWriter(vWALCloser{&buf})
+	e, sp := vWALMakeEntry()
+	raw, err := e.Encode(nil)
+	vAssume(err == nil)
+	vAssume(w.Write(e.Type(), vWALCompress(raw)) == nil && w.Flush() == nil)
+	firstEnd := buf.Len()
+	junk := vBytes("payload", vLen("len", 0, 5))
+	typ := WalEntryType(vByte("entryType"))
+	vAssume(w.Write(typ, vWALCompress(junk)) == nil && w.Flush() == nil)
+	total := buf.Len()
+	r := NewWALSegmentReader(vWALReadCloser{bytes.NewReader(append([]byte(nil), buf.Bytes()...))})
+	vAssert(r.Next(), "WAL.first-entry-present")
+	got, err := r.Read()
+	vAssert(err == nil, "WAL.first-entry-decodes")
+	if err == nil {
+		vWALCheckEntry(got, sp)
+	}
+	vAssert(r.Count() == int64(firstEnd), "WAL.count-is-length-of-valid-prefix")
+	if r.Next() {
+		_, err2 := r.Read()
+		if err2 != nil {
+			vAssert(r.Count() == int64(firstEnd), "WAL.count-excludes-undecodable-entry")
+		} else {
+			vAssert(r.Count() == int64(total), "WAL.count-is-length-of-valid-prefix")
+		}
+		vObserve("secondOK", err2 == nil)
+	} else {
+		vFail("WAL.framed-entry-not-skipped")
+	}
+	vReach("WAL.corrupt.end")
 }
 
 // vWALCompress: what WAL.writeToLog does with the encoded entry (snappy.Encode).
